@@ -471,7 +471,7 @@ def generic_check(spec, prop, tier, seed, replay):
             ops = shrink(binpath, oracle, c, prop, lambda m, mo, sig=sig: any(s == sig for s, _ in mo), workdir) if c else []
             text = case_ops_text(c, "1", ops) if c else ""
             tr, v, _ = run_pipeline(binpath, oracle, text, workdir, "final") if c else ("", [], None)
-            rp = write_replay(prop, "%d-%s" % (seed, re.sub(r"\W+", "_", sig)[:40]), {
+            rp = write_replay(prop, "%d-%s-%s" % (seed, re.sub(r"\W+", "_", sig)[:40], hashlib.sha1(sig.encode()).hexdigest()[:6]), {
                 "property": prop, "kind": "monitor-failure", "signature": sig, "seed": seed, "tier": tier,
                 "ops": text, "transcript": tr, "verdicts": v, "first_seen": line,
                 "rerun": "tools/check %s --replay <this file>" % prop})
